@@ -37,6 +37,8 @@ SEPARATE = [
     ("table_rtol", {"code": FORM_A}, {"code": FORM_A + 'options={"table_rtol":1e-3}\n'}),
     ("part", {"code": FORM_A}, {"code": FORM_A + 'options={"part":"diagonal"}\n'}),
     ("compiler_flags", {"code": FORM_A, "cffi_args": ["-O2"]}, {"code": FORM_A, "cffi_args": ["-O0"]}),
+    ("compiler_flag_order", {"code": FORM_A, "cffi_args": ["-O0", "-O3"]}, {"code": FORM_A, "cffi_args": ["-O3", "-O0"]}),
+    ("compiler_flag_order_expression", {"code": EXPR % "", "cffi_args": ["-O0", "-O3"]}, {"code": EXPR % "", "cffi_args": ["-O3", "-O0"]}),
     ("debug", {"code": FORM_A}, {"code": FORM_A, "debug": True}),
     ("points_far", {"code": EXPR % ""}, {"code": EXPR % "; P[1,1]=0.25"}),
     ("points_10th_digit", {"code": EXPR % ""}, {"code": EXPR % "; P[1,1]+=1e-10"}),
@@ -124,6 +126,9 @@ def run(v, tier, seed, g):
     hists = ["none", "objects", "compile_other"]
     # ---- stability across hash seeds and process histories ------------------------------------------
     base = [dict(c, object_names=True) for c in BASE]
+    # requests with several compiler flags (names must not depend on how a collection of flags is ordered/printed)
+    manyflags = ["-O2", "-g0", "-Wall", "-fno-math-errno", "-DVF_A=1", "-DVF_B=2"]
+    base += [dict(c, id=c["id"] + "+flags", cffi_args=manyflags) for c in BASE[:3]]
     ref = None
     runs = 0
     for s in seeds:
@@ -144,7 +149,7 @@ def run(v, tier, seed, g):
                 v.oblige(same)
                 if not same:
                     v.violation(f"unstable:{cid}", f"names of {cid} differ between (seed {ref[1]}, history {ref[2]}) and (seed {s}, history {h})",
-                                {"case": cid, "code": [c for c in BASE if c['id'] == cid][0]["code"], "a": str(ref[0][cid])[:400], "b": str(names[cid])[:400],
+                                {"case": cid, "code": [c for c in base if c['id'] == cid][0]["code"], "cffi_args": [c for c in base if c['id'] == cid][0].get("cffi_args"), "a": str(ref[0][cid])[:400], "b": str(names[cid])[:400],
                                  "seed_a": ref[1], "history_a": ref[2], "seed_b": s, "history_b": h})
     # ---- pre-image = the modelled encoding; names valid and distinct ------------------------------
     for r in ref[3] if ref else []:
